@@ -2,6 +2,7 @@
 import json
 
 from .. import runner, sched
+from .. import tlc
 from ..core import CheckRun
 from ..domains import (Rng, all_bool_masks, all_pos_masks, all_slices, compositions, pairs_upto)
 from ..drivers import kernels
@@ -48,8 +49,8 @@ def trace_cfg(muc="TRUE", isf="TRUE", diag="FALSE", inv=True):
     return s if inv else s.replace("INVARIANT TraceInv\n", "")
 
 
-EMBS_Q = ["f64", "f32", "i64", "i64big", "i32", "u8", "bool", "M8ns", "M8ns0", "m8ns", "M8s"]
-EMBS_T = EMBS_Q + ["i8", "u64", "m8s", "M8us", "m8ns0"]
+EMBS_Q = ["f64", "f32", "i64", "i64big", "i32", "u8", "bool", "M8ns", "M8ns0", "m8ns", "M8s", "i8lo"]
+EMBS_T = EMBS_Q + ["i8", "u64", "m8s", "M8us", "m8ns0", "i16lo", "i32lo"]
 CHUNKABLE = {"f64", "f32", "i64", "i64big", "i32", "i8", "u8", "u64"}
 
 
@@ -133,6 +134,14 @@ def run(tier):
     # vacuity guards: the deviation of D5 must be refuted by TLC, for both null representations
     ck.mc_bg("GBReduce", MC.format(ng=2, vals="{1, 2}", rows=3, blocks=2, kernels='{"min"}', muc="FALSE", isf="TRUE"), "neg_merge_float", expect="BlocksAreSingle", workers=1)
     ck.mc_bg("GBReduce", MC.format(ng=2, vals="{1, 2}", rows=3, blocks=2, kernels='{"first"}', muc="FALSE", isf="FALSE"), "neg_merge_int", expect="BlocksAreSingle", workers=1)
+
+    # TLAPS supplement: the scalar merge algebra (homomorphism, identities, associativity) over unbounded integers
+    tp = tlc.tlaps_check("GBMergeLemmas", "C04")
+    if not tp["ok"]:
+        from ..core import Machinery
+        raise Machinery(f"tlapm did not prove GBMergeLemmas: {tp}")
+    ck.notes["tlaps"] = {"module": "spec/proofs/GBMergeLemmas.tla", "obligations_proved": tp["proved"], "wall_s": tp["wall"],
+                         "theorems": "Step(Merge(p,q),v) = Merge(p,Step(q,v)), left/right identity, associativity for max, min, first, sum over unbounded Int"}
 
     # 2. the implementation, replayed through the specification
     sched.install()
